@@ -836,6 +836,43 @@ package fzf
 //@ ensures !result ==> maphas(t.selected, item.text.Index) == old(maphas(t.selected, item.text.Index)) && len(t.selected) == old(len(t.selected))
 //@ ensures old(len(t.selected)) <= t.multi ==> len(t.selected) <= t.multi
 //@ ensures forall(k, -2147483648, 2147483648, k != item.text.Index ==> maphas(t.selected, k) == old(maphas(t.selected, k)))
+// (involution: a selected item is always deselected, whatever the limit; an unselected one is selected when there is room)
+//@ ensures old(maphas(t.selected, item.text.Index)) ==> result && !maphas(t.selected, item.text.Index)
+//@ ensures !old(maphas(t.selected, item.text.Index)) && old(len(t.selected)) < t.multi ==> result && maphas(t.selected, item.text.Index)
+//@ func Terminal.selectItemChanged
+//@ property C09
+//@ requires t != nil && item != nil && t.selected != nil
+//@ modifies map(t.selected), t.version
+//@ ensures result == (!old(maphas(t.selected, item.text.Index)) && old(len(t.selected)) < t.multi)
+//@ ensures result ==> maphas(t.selected, item.text.Index)
+//@ ensures !result ==> len(t.selected) == old(len(t.selected)) && maphas(t.selected, item.text.Index) == old(maphas(t.selected, item.text.Index))
+//@ ensures old(len(t.selected)) <= t.multi ==> len(t.selected) <= t.multi
+//@ ensures forall(k, -2147483648, 2147483648, k != item.text.Index ==> maphas(t.selected, k) == old(maphas(t.selected, k)))
+//@ func Terminal.deselectItemChanged
+//@ property C09
+//@ requires t != nil && item != nil
+//@ modifies map(t.selected), t.version
+//@ ensures result == old(maphas(t.selected, item.text.Index))
+//@ ensures !maphas(t.selected, item.text.Index) && len(t.selected) <= old(len(t.selected))
+//@ ensures forall(k, -2147483648, 2147483648, k != item.text.Index ==> maphas(t.selected, k) == old(maphas(t.selected, k)))
+
+// Query editing: delete-char removes exactly the character under the cursor and leaves the cursor where it is;
+// truncateQuery (after a paste) keeps the first maxPatternLength characters and puts the cursor back inside the query.
+//@ func Terminal.delChar
+//@ property C09
+//@ requires t != nil && 0 <= t.cx && t.cx <= len(t.input)
+//@ modifies t.input, t.input[0:cap(t.input)]
+//@ ensures result == (old(t.cx) < old(len(t.input))) && t.cx == old(t.cx)
+//@ ensures !result ==> unchanged(t.input) && forall(k, 0, len(t.input), t.input[k] == old(t.input[k]))
+//@ ensures result ==> len(t.input) == old(len(t.input)) - 1
+//@ ensures result ==> forall(k, 0, t.cx, t.input[k] == old(t.input[k]))
+//@ ensures result ==> forall(k, t.cx, len(t.input), t.input[k] == old(t.input[k + 1]))
+//@ func Terminal.truncateQuery
+//@ property C09
+//@ requires t != nil
+//@ modifies t.input, t.cx
+//@ ensures len(t.input) == (old(len(t.input)) < 1000 ? old(len(t.input)) : 1000) && t.input.arr == old(t.input.arr) && t.input.off == old(t.input.off)
+//@ ensures 0 <= t.cx && t.cx <= len(t.input) && (0 <= old(t.cx) && old(t.cx) <= len(t.input) ==> t.cx == old(t.cx))
 
 // ---------------------------------------------------------------- rendering helpers (C14)
 // getScrollbar: size and position of the scrollbar for `total` entries of `perLine` lines each in a window of
